@@ -2,11 +2,18 @@
 # setup_cmd: build the tools from files on disk only and warm the build cache.
 set -e
 cd "$(dirname "$0")"
+[ -n "${VP_RUN_REPO:-}" ] && export REPO=${REPO:-$VP_RUN_REPO}
 . ./env.sh
 mkdir -p bin evidence replays
 (cd tools && go build -o ../bin/goyacc golang.org/x/tools/cmd/goyacc && go build -o ../bin/vinstr ./vinstr)
 W=$(mktemp -d "${TMPDIR:-/tmp}/verif-setup.XXXXXX"); trap 'rm -rf "$W"' EXIT
 bin/vinstr -repo "$REPO" -out "$W" -rt "$VERIF_DIR/rt" -goyacc "$VERIF_DIR/bin/goyacc"
 cp "$REPO/go.sum" mc/go.sum
-(cd mc && go build -overlay "$W/overlay.json" -o "$W/vcheck" ./cmd/vcheck)
+MODFLAG=
+if [ "$REPO" != /repo ]; then
+  cp mc/go.mod "$W/go.mod"; cp "$REPO/go.sum" "$W/go.sum"
+  go mod edit -replace "github.com/sdcio/yang-parser=$REPO" "$W/go.mod"
+  MODFLAG="-modfile=$W/go.mod"
+fi
+(cd mc && go build $MODFLAG -overlay "$W/overlay.json" -o "$W/vcheck" ./cmd/vcheck)
 echo "setup ok"
